@@ -7,6 +7,8 @@ docstring).  The quantifier is the finite set of all 680 three-element subsets o
 is decided by the kernel (`decide +kernel`, no extra axioms).  The tie to the code is exhaustive: the check runs
 all 680 triples through the real `Constraints` / `get_position` and compares accepted / implemented / route.
 -/
+namespace C09
+
 open Name
 
 /-- full statement over all triples -/
@@ -74,3 +76,5 @@ theorem implemented_count : (triples.filter fun t => accepted t && implemented t
 /-- non-vacuity: concrete modes on both sides -/
 example : [qaz, a_eq_b, mu] ∈ triples ∧ accepted [qaz, a_eq_b, mu] = true ∧ implemented [qaz, a_eq_b, mu] = true := by decide
 example : [naz, mu, eta] ∈ triples ∧ accepted [naz, mu, eta] = true ∧ implemented [naz, mu, eta] = false := by decide
+
+end C09
